@@ -53,7 +53,8 @@ fn lit_ast(sv: &ScalarValue, env: &Env) -> Option<Value> {
         ScalarValue::Boolean(None) => Some(json!({"op":"lit","v":{"k":"n","v":0},"t":"b"})),
         ScalarValue::Boolean(Some(b)) => Some(json!({"op":"lit","v":{"k":"b","v":*b as i64},"t":"b"})),
         ScalarValue::Utf8(s) | ScalarValue::Utf8View(s) | ScalarValue::LargeUtf8(s) => match s {
-            None => Some(json!({"op":"lit","v":{"k":"n","v":0},"t":"s"})),
+            None => Some(json!({"op":"lit","v":{"k":"n","v":0},"t": if env.xstrings { "x" } else { "s" }})),
+            Some(x) if env.xstrings => ast::XPOOL.iter().position(|p| p == x && !p.is_empty()).map(|ix| json!({"op":"lit","v":{"k":"x","v":ix},"t":"x"})),
             Some(x) => {
                 if let Some(ix) = ast::STR_POOL.iter().position(|p| p == x && !p.is_empty()) {
                     Some(json!({"op":"lit","v":{"k":"s","v":ix},"t":"s"}))
@@ -106,6 +107,26 @@ pub fn from_expr(e: &Expr, schema: &DFSchema, env: &Env, pattern: bool) -> Optio
                 Operator::Or => "or",
                 Operator::IsDistinctFrom => "isdistinct",
                 Operator::IsNotDistinctFrom => "isnotdistinct",
+                Operator::BitwiseAnd => "&",
+                Operator::BitwiseOr => "|",
+                Operator::BitwiseXor => "^",
+                Operator::BitwiseShiftLeft => "<<",
+                Operator::BitwiseShiftRight => ">>",
+                Operator::RegexMatch | Operator::RegexIMatch | Operator::RegexNotMatch | Operator::RegexNotIMatch => {
+                    let name = match b.op {
+                        Operator::RegexMatch => "~",
+                        Operator::RegexIMatch => "~*",
+                        Operator::RegexNotMatch => "!~",
+                        _ => "!~*",
+                    };
+                    let Expr::Literal(sv, _) = b.right.as_ref() else { return None };
+                    let re = match sv {
+                        ScalarValue::Utf8(None) | ScalarValue::Utf8View(None) | ScalarValue::LargeUtf8(None) | ScalarValue::Null => json!({"null": true, "grp": false, "alts": []}),
+                        ScalarValue::Utf8(Some(t)) | ScalarValue::Utf8View(Some(t)) | ScalarValue::LargeUtf8(Some(t)) => env.re_map.lock().unwrap().get(t)?.clone(),
+                        _ => return None,
+                    };
+                    return Some(json!({"op":"regex","f":name,"e":f(&b.left)?,"re":re}));
+                }
                 _ => return None,
             };
             if matches!(b.op, Operator::Plus | Operator::Minus | Operator::Multiply | Operator::Divide | Operator::Modulo) {
@@ -160,6 +181,13 @@ pub fn from_expr(e: &Expr, schema: &DFSchema, env: &Env, pattern: bool) -> Optio
                 return None;
             }
             let sim = matches!(e, Expr::SimilarTo(_));
+            if let (false, Expr::Literal(ScalarValue::Utf8(Some(pt)) | ScalarValue::Utf8View(Some(pt)) | ScalarValue::LargeUtf8(Some(pt)), _)) = (sim, l.pattern.as_ref()) {
+                let in_pool = !env.xstrings && env.pats.iter().skip(1).any(|p| p == pt);
+                if !in_pool {
+                    let toks = ast::likex_tokens(pt)?;
+                    return Some(json!({"op":"likex","f": if l.case_insensitive { "ilike" } else { "like" },"e":f(&l.expr)?,"toks":toks,"neg":l.negated}));
+                }
+            }
             let name = match (sim, l.case_insensitive) {
                 (false, false) => "like",
                 (false, true) => "ilike",
@@ -184,6 +212,8 @@ pub fn from_expr(e: &Expr, schema: &DFSchema, env: &Env, pattern: bool) -> Optio
         }
         Expr::ScalarFunction(sf) => match sf.func.name() {
             "coalesce" => json!({"op":"coalesce","args": sf.args.iter().map(fp).collect::<Option<Vec<_>>>()?}),
+            "starts_with" if sf.args.len() == 2 => json!({"op":"startswith","e":f(&sf.args[0])?,"pre":f(&sf.args[1])?}),
+            "nvl" if sf.args.len() == 2 => json!({"op":"nvl","l":f(&sf.args[0])?,"r":f(&sf.args[1])?}),
             "nullif" if sf.args.len() == 2 => json!({"op":"nullif","l":f(&sf.args[0])?,"r":f(&sf.args[1])?}),
             "abs" if sf.args.len() == 1 => match dt_kind(&sf.args[0].get_type(schema).ok()?)? {
                 "i" => json!({"op":"un","f":"abs","e":f(&sf.args[0])?}),
@@ -262,7 +292,7 @@ fn variants_for(t: &Value, rng: &mut Rng, quick: bool) -> Vec<Variant> {
         let mut used = vec![];
         for _ in 0..n {
             let c = rng.below(4);
-            if kinds[c] == "s" || used.contains(&c) {
+            if kinds[c] == "s" || kinds[c] == "x" || used.contains(&c) {
                 continue;
             }
             used.push(c);
@@ -333,14 +363,18 @@ pub fn main() {
     let quick = util::tier_quick();
     let lines = util::read_ndjson(&inp);
     let header = lines.iter().find(|c| c["id"] == 0).expect("header case (id 0) missing").clone();
-    let env_udf = ast::env_from_header(&header);
-    let mut env_case = env_udf.clone();
-    env_case.coalesce_as_case = true;
+    let env_udf_s = ast::env_from_header(&header);
+    let mut env_case_s = env_udf_s.clone();
+    env_case_s.coalesce_as_case = true;
+    let mut env_udf_x = env_udf_s.clone();
+    env_udf_x.xstrings = true;
+    let mut env_case_x = env_case_s.clone();
+    env_case_x.xstrings = true;
     let cases: Vec<Value> = lines.into_iter().filter(|c| c["id"] != 0).collect();
     let per: Vec<(Vec<Value>, Vec<Value>, Stats)> = std::thread::scope(|s| {
         let mut hs = vec![];
         for t in 0..threads {
-            let (cases, header, env_udf, env_case) = (&cases, &header, &env_udf, &env_case);
+            let (cases, header, env_udf_s, env_case_s, env_udf_x, env_case_x) = (&cases, &header, &env_udf_s, &env_case_s, &env_udf_x, &env_case_x);
             hs.push(s.spawn(move || {
                 let ctx = SessionContext::new();
                 let rt = tokio::runtime::Builder::new_current_thread().enable_all().build().unwrap();
@@ -355,6 +389,7 @@ pub fn main() {
                         continue;
                     }
                     let tname = c["tbl"].as_str().unwrap();
+                    let (env_udf, env_case) = if tname == "C" { (env_udf_x, env_case_x) } else { (env_udf_s, env_case_s) };
                     let tv = &header["tables"][tname];
                     let exp: Vec<i64> = c["exp"].as_array().unwrap().iter().map(|x| x.as_i64().unwrap()).collect();
                     let mut rng = Rng::new(seed ^ (c["id"].as_u64().unwrap() << 20) ^ (c["p"].as_u64().unwrap_or(0) << 40) ^ 0x51);
@@ -719,6 +754,9 @@ pub fn main() {
         tot.predicates_changed += st.predicates_changed;
         tot.dataframe += st.dataframe;
     }
+    // engine-vs-engine corpus for rule families without a TLA+ reference
+    let (extra_results, extra_summary) = if util::has_flag("--no-extras") { (vec![], json!({})) } else { crate::extras::run(&header) };
+    results.extend(extra_results);
     util::write_ndjson(&out, &results);
     util::write_ndjson(&trace, &events);
     util::summary(json!({"cases": cases.len(), "simplifications": tot.simplifications, "changed": tot.changed, "events_for_tlc": tot.ast_ok,
@@ -726,5 +764,5 @@ pub fn main() {
                          "before_engine_vs_reference_rows": tot.before_engine_vs_reference, "simplify_errors": tot.simplify_errors,
                          "physical_simplifications": tot.physical, "physical_changed": tot.physical_changed,
                          "simplify_predicates_calls": tot.predicates, "simplify_predicates_changed": tot.predicates_changed,
-                         "dataframe_executions": tot.dataframe}));
+                         "dataframe_executions": tot.dataframe, "extras": extra_summary}));
 }
